@@ -166,8 +166,45 @@ func (w *loopWorld) fieldIdx(t *types.Named, name string) int {
 	return -1
 }
 
+// bodyAST: the syntax of the loop body. What a loop does depends on what its body evaluates to, not on what the body
+// looks like; the body is therefore given a syntax that a shortcut based on looking at it is likely to misjudge:
+// `@if(c)text@elseif(d)@breakIf(e)@continueIf(f)@end` — the control directives sit in an @elseif branch.
+func (w *loopWorld) bodyAST() *iStruct {
+	m := w.m
+	mk := func(name string, fields map[string]any) *iStruct {
+		nt := m.namedType("ast", name)
+		if nt == nil {
+			return nil
+		}
+		o := &iStruct{typ: nt, fields: map[int]any{}, zeroed: true}
+		for fname, v := range fields {
+			if i := w.fieldIdx(nt, fname); i >= 0 {
+				o.fields[i] = v
+			}
+		}
+		return o
+	}
+	list := func(elems ...any) iSlice { return iSlice{&iArr{elems: elems}, 0, len(elems)} }
+	brk := mk("BreakIfStmt", map[string]any{"Condition": iObj{"e"}})
+	cnt := mk("ContinueIfStmt", map[string]any{"Condition": iObj{"f"}})
+	text := mk("HTMLStmt", nil)
+	if brk == nil || cnt == nil || text == nil {
+		return mk("BlockStmt", nil)
+	}
+	elif := mk("ElseIfStmt", map[string]any{"Condition": iObj{"d"}, "Consequence": mk("BlockStmt", map[string]any{"Statements": list(brk, cnt)})})
+	iff := mk("IfStmt", map[string]any{"Condition": iObj{"c"}, "Consequence": mk("BlockStmt", map[string]any{"Statements": list(text)}),
+		"Alternatives": list(elif), "Alternative": iNil{}})
+	if elif == nil || iff == nil {
+		return mk("BlockStmt", nil)
+	}
+	return mk("BlockStmt", map[string]any{"Statements": list(iff)})
+}
+
 // bodies: what the body yields in pass k (1-based) for a scenario.
 func (w *loopWorld) bodyResult(kind string, k int) *iStruct {
+	if k > 4 {
+		return w.obj("Error", nil) // a loop that should have ended long ago: stop it
+	}
 	text := []string{"", "<A>", "<B>", "<C>", "<D>"}[k]
 	switch kind {
 	case "break":
@@ -194,6 +231,9 @@ func (w *loopWorld) bodyResult(kind string, k int) *iStruct {
 func passText(kind string, k int) string {
 	switch kind {
 	case "break-bare", "error", "empty", "continue-empty":
+		return ""
+	}
+	if k > 4 {
 		return ""
 	}
 	return []string{"", "<A>", "<B>", "<C>", "<D>"}[k]
@@ -302,7 +342,7 @@ func (m *Model) eachCases() *loopCaseResult {
 	for _, sc := range scens {
 		r.cases++
 		anode := iObj{"array expression"}
-		blk := &iStruct{typ: blockStmtT, fields: map[int]any{}}
+		blk := w.bodyAST()
 		alt := &iStruct{typ: blockStmtT, fields: map[int]any{}}
 		node := &iStruct{typ: eachT, fields: map[int]any{fVar: &iStruct{typ: identT, fields: map[int]any{iVal: constant.MakeString("item")}}, fArr: anode, fBlk: blk}}
 		if sc.alt {
@@ -518,7 +558,7 @@ func (m *Model) forCases() *loopCaseResult {
 		r.cases++
 		inode := &iStruct{typ: assignT, fields: map[int]any{aName: &iStruct{typ: identT, fields: map[int]any{iVal: constant.MakeString("i")}}}}
 		cnode, pnode := iObj{"condition"}, iObj{"post clause"}
-		blk := &iStruct{typ: blockStmtT, fields: map[int]any{}}
+		blk := w.bodyAST()
 		alt := &iStruct{typ: blockStmtT, fields: map[int]any{}}
 		node := &iStruct{typ: forT, fields: map[int]any{fBlk: blk}}
 		setOrNil := func(f int, present bool, v any) {
